@@ -26,7 +26,7 @@ def _empty_name_token(text):
         if rest_field:
             if " :" in t or "*:" in t or t.startswith(":param:") or t.startswith(":type:"):
                 return True
-        elif t.startswith(":") or t.startswith("("):
+        elif t.startswith(":") or t.startswith("(") or (len(t) > 0 and t.strip("*") == "") or t.startswith("* ") or t.startswith("*:"):
             return True
     return False
 
